@@ -53,6 +53,63 @@ CHECKS = {
         "new_handler in the C build of the library (observed, documented upstream).",
    technique="Coq decision procedure over a regenerated finite table + conditional cross-pair theorem + preload/static differential harness",
    design="3/C19"),
+ "C05": dict(
+   text="Machine-checked proof (Coq): over the API-level model of _mi_heap_realloc_zero / mi_expand / reallocf / mi_heap_realloc_zero_aligned_at on an "
+        "abstract map of live blocks, for all states satisfying the representation invariant, all 64-bit sizes and all lower-layer answers satisfying "
+        "the contract (fresh, disjoint, usable>=size): prefix min(old usable,new) preserved, result usable>=new, old block released iff a different "
+        "pointer is returned with no other entry changed, NULL input = allocation, size 0 yields a valid block, failure returns NULL with the state "
+        "unchanged (reallocf frees), expand never moves and succeeds iff n<=usable, exact in-place rule (plain and aligned). Tie: function-level "
+        "records of the real entry points (in-place decisions, chains on a dirty heap) replayed against the model, plus API traces with the "
+        "shadow oracle (prefix, old block intact after failure, expand).",
+   note="The page/segment layers are an oracle constrained by answer_ok (what C01/C03 provide); release configuration (MI_PADDING=0: with padding "
+        "mi_expand returns NULL by design). Differential tie is sampled (about 8.6k records quick, 62k thorough, plus ~30 traces).",
+   technique="Coq proof over API-level Gallina model with oracle-quantified lower layers + function-level differential + shadow-oracle traces",
+   design="3/C05"),
+ "C04": dict(
+   text="Machine-checked proof (Coq): zeroing allocations (all entry points, any initial bytes of the underlying block) return blocks that are zero over "
+        "the whole usable size; the invariant 'bytes [requested,usable) of a zero-family block are zero' holds initially and is preserved by every "
+        "entry point and by program stores inside the requested size; by induction over arbitrary monotone growth chains (rezalloc/recalloc/aligned "
+        "variants, in place or moved, interleaved stores and arbitrary other calls) every byte from the previous requested size on is zero after each "
+        "step. The pre-repair code is shown to violate it (C04_ex_old_code_nonzero); the defect was repaired in /repo (fix: commit). Tie: dirty-heap "
+        "traces on the real allocator reading back every zero-initialised block and every grown range byte by byte.",
+   note="free_is_zero / memid zero knowledge belongs to the page/arena layers; here the zeroing allocation clears the full block as the C code does. "
+        "Shrinking in between ends a chain (the property quantifies over monotone growth chains).",
+   technique="Coq invariant + induction over growth chains + dirty-heap chain oracle",
+   design="3/C04"),
+ "C06": dict(
+   text="Machine-checked proof (Coq): mul_overflow/count_size_overflow exact for all 64-bit operands; for every entry point of the API model: oversize "
+        "=> NULL and state unchanged, count*size overflow => NULL, bad alignment => NULL for the allocation entry points, huge alignment with offset "
+        "=> NULL, posix_memalign codes and out-parameter, pvalloc overflow and rounding, reallocarray/reallocarr errno; every failing call leaves all "
+        "live blocks and bytes unchanged; well-formed requests succeed whenever the lower layers grant memory. Tie: boundary tuples around SIZE_MAX, "
+        "PTRDIFF_MAX, MI_MAX_ALLOC_SIZE, SIZE_MAX/size on the real entry points against the model, malformed-stream traces with the shadow oracle.",
+   note="bad-alignment clause is PARTIAL: refuted for the aligned re-allocation family (known finding impl:realloc-aligned-bad-alignment, theorem "
+        "C06_bad_alignment_fails_full_refuted). Failure-freedom of the OS/page layers themselves is C07.",
+   technique="Coq total-function specs over the API model + boundary-tuple differential + sentinel/shadow oracle",
+   design="3/C06"),
+ "C03": dict(
+   text="Machine-checked proof (Coq): over-allocation arithmetic for all size, 2^k<=MI_BLOCK_ALIGNMENT_MAX, offset and block start (aligned at "
+        "offset, adjust<alignment, fits, ptr_unalign recovers the block); soundness of mi_malloc_is_naturally_aligned composed with the page-start "
+        "geometry (page_start_block_aligned, page_start_aligned16: the fallback is never taken); every reachable size class is 8 or a multiple of 16 "
+        "=> 8/16-byte minimal alignment; interior pointers: usable = usable-adjust >= size, accepted by expand/free/realloc in the model; aligned "
+        "realloc keeps (q+offset) mod a = 0 with the exact aligned in-place rule. Tie: aligned grid (size x 2^k, k=0..26, x offset) on a dirty heap "
+        "with alignment/usable/content oracles, function-level records of the alignment decisions against the model.",
+   note="Placement for alignments above MI_BLOCK_ALIGNMENT_MAX (huge_aligned) and the has_aligned flag invariant are hypotheses of the API model "
+        "(segment/page layers); they are exercised by the traces (alignments up to 64 MiB) and the span-layer theorems where present.",
+   technique="Coq proof over API-level model + address-arithmetic lemmas + aligned-grid traces with shadow oracle",
+   design="3/C03"),
+ "C17": dict(
+   text="Machine-checked proof (Coq) on a byte-level model of one hardened page (Secure.v), for all keys/sizes/values/histories: encode/decode is "
+        "invertible on 64-bit words; a second free of a listed block gives exactly EAGAIN with the state unchanged; no false double-free report for "
+        "any content of a live block; malloc's padding is checked and one byte different from the expected byte (0xDE for delta>0, 0x00 for delta=0) "
+        "gives EFAULT while an untouched block gives none; a forged link that decodes neither to NULL nor into the page area gives EFAULT and the "
+        "list is cut there; a weak invariant survives every allowed operation and attack, so no held block is handed out again and every returned "
+        "block is inside the area; the thread-free collect walk is bounded by capacity+1 on any memory. Tie: exact replay of page-level episodes of "
+        "the MI_SECURE=4 and MI_DEBUG=1 builds (error codes, lists, bytes), API-level attack episodes with a shadow table.",
+   note="One-page sequential model; the strong invariant is evaluated on dumped real pages, only the weak one is proved inductive. Excluded by the "
+        "property text or the model: links decoding into the area, a second free of a block whose own link was forged (a real hang exists, "
+        "documented), huge pages, debug assertions after an error. The debug build runs detection clauses only.",
+   technique="Coq proof over an executable byte-level page model + extraction-based differential replay (two hardened builds) + attack oracle",
+   design="3/C17"),
 }
 NOT_YET = {}
 def main():
